@@ -33,10 +33,20 @@ def indexOf (args : List Nat) (f : Nat) : Option Nat :=
   | [] => none
   | x :: r => if x = f then some 0 else (indexOf r f).map (· + 1)
 
-/-- WaitIterator over distinct inputs `args`: what the consumer must see when the inputs complete in the order
-    `order` with outcomes `oc`: one (index, outcome) per input, in completion order -/
+/-- WaitIterator with the still unused argument positions `avail` = (future, index) pairs in argument order:
+    every completion takes the first unused position of the completed future -/
+def waitYieldsFrom (avail : List (Nat × Nat)) (oc : Nat → Option Outcome) :
+    List Nat → List (Option Nat × Option Outcome)
+  | [] => []
+  | f :: r => (Wait.lookup avail f, oc f) :: waitYieldsFrom (Wait.eraseKey avail f) oc r
+
+/-- WaitIterator over the inputs `args` (the same future may be passed at several positions): what the consumer
+    must see when the argument positions complete in the order `order` (a future passed n times completes n times)
+    with outcomes `oc`: one (index, outcome) per completion, in completion order; the k-th completion of a future
+    carries the index of the k-th position it was passed at (for distinct inputs: `indexOf args f`,
+    `waitYields_distinct`) -/
 def waitYields (args : List Nat) (order : List Nat) (oc : Nat → Option Outcome) : List (Option Nat × Option Outcome) :=
-  order.map (fun f => (indexOf args f, oc f))
+  waitYieldsFrom (Wait.enum args 0) oc order
 
 /-- with_timeout: `aAtDeadline` is the input's state when the loop iteration in which the timer is due begins
     (`none` = the deadline never arrives), `a` the input's final state -/
